@@ -79,6 +79,14 @@ CLAIMED.update({
    design='5/C14'),
 })
 
+CLAIMED.update({
+ 'C18': dict(
+   technique='Lean 4 proof: the schema as a forest, tiling / alignment / in-stream invariants by mutual structural induction on the type universe and on the forest; rows compared with the real serialize_with_schema',
+   text='Kernel-checked: rows_preorder (the schema is the pre-order traversal of the forest), top_tile (top-level rows are contiguous from 0 to the end of the stream), children_tile (the children of every composite row tile it, at every depth), zero_rows_aligned (each zero-copy block starts at a multiple of its recorded alignment), rows_in_stream (every row lies within the stream, hence debug/to_csv index only inside it). The run compares the rows recorded by the real SchemaWriter with the model forest for every generated value, the bytes with the plain writer, and evaluates the invariants (incl. zero padding bytes, debug/to_csv not panicking) on the real rows.',
+   note='that the recording writer writes the same bytes, and that padding rows cover zero bytes, are checked by the correspondence/oracle (and C07.zero_block_shape), not separate theorems; field names are abstracted to path depth in the model.',
+   design='5/C18'),
+})
+
 NOT_YET = {
 }
 
